@@ -226,7 +226,7 @@ impl ValveProtocol {
     }
 
     fn get_goldsrc_server_info(buffer: &mut Buffer<LittleEndian>) -> GDResult<ServerInfo> {
-        let _header: u8 = buffer.read()?; //get the header (useless info)
+        // the packet header and the 'm' type byte have already been consumed by `Packet::new_from_bufferer`
         let _address: String = buffer.read_string::<Utf8Decoder>(None)?; //get the server address (useless info)
         let name = buffer.read_string::<Utf8Decoder>(None)?;
         let map = buffer.read_string::<Utf8Decoder>(None)?;
